@@ -32,10 +32,10 @@ def rule_r1(chk, db):
     for bi, t in x.calls():
         nm = short(callee_def(t))
         if nm == "v2_check_presigned_url":
-            chk.verdict(bool(sig_edges) and flow.must_pass(x, [bi], sig_edges), "R1", "presigned-iff-Signature", x.loc(bi),
+            chk.verdict(sigcore.selected_by(x, bi, sig_edges), "R1", "presigned-iff-Signature", x.loc(bi),
                         "the V2 presigned verifier is not selected by the presence of the `Signature` parameter")
         if nm == "v2_check_header_auth":
-            chk.verdict(bool(parse_edges) and flow.must_pass(x, [bi], parse_edges), "R1", "header-iff-AWS-scheme", x.loc(bi),
+            chk.verdict(sigcore.selected_by(x, bi, parse_edges, success_of=lambda d: d.endswith("AuthorizationV2::<'a>::parse") or d.endswith("AuthorizationV2::parse")), "R1", "header-iff-AWS-scheme", x.loc(bi),
                         "the V2 header verifier is not selected by a parsable `AWS ak:sig` Authorization header")
     # a present Signature parameter never yields None
     for w in [w for w in flow.return_writes(x) if w["kind"] == "None"]:
